@@ -6,6 +6,7 @@ on the option lattice), --drop-water vs the water-stripped file, and --neutraln/
 import random
 
 from .. import common, pipeline
+from ..mon import pkastub
 from ..gen import pdbfmt, workload
 from ..run import Res
 
@@ -24,8 +25,8 @@ RULE = ("random walks on {whitespace, keep-chain, include-header, pdb-output, ap
 ASSUMPTIONS = ["'byte-identical' is judged on the numeric token text of the PQR atom lines (fixed columns or tokens)",
                "a terminus counts as 'actually neutralised' when the atoms of the two outputs show the lost amine "
                "hydrogen (N) or the gained HO (C)"]
-MIN = {"quick": {"pairs_compared": 350, "dropwater_pairs": 15, "neutral_pairs": 22, "ffout_pairs": 60, "dropwater_colliding_numbering": 4},
-       "thorough": {"pairs_compared": 12000, "dropwater_pairs": 800, "neutral_pairs": 700, "ffout_pairs": 2000, "dropwater_colliding_numbering": 400}}
+MIN = {"quick": {"pairs_compared": 350, "dropwater_pairs": 15, "neutral_pairs": 22, "ffout_pairs": 60, "dropwater_colliding_numbering": 4, "neutral_pairs_pka_route": 5},
+       "thorough": {"pairs_compared": 12000, "dropwater_pairs": 800, "neutral_pairs": 700, "ffout_pairs": 2000, "dropwater_colliding_numbering": 400, "neutral_pairs_pka_route": 400}}
 FLAGS = ["whitespace", "keepchain", "header", "pdbout", "apbs", "ffout"]
 
 
@@ -48,8 +49,12 @@ def cases(tier, seed):
             out.append({"kind": "neutral", "w": "topostress", "seed": seed * 14009 + i, "ff": "PARSE",
                         "p": {"scheme": ["merged_oxt", "repeated_oxt", "blank_ter", "het_tail"][(i // 4) % 4]}})
             continue
-        out.append({"kind": "neutral", "w": "synth", "seed": seed * 14009 + i, "ff": "PARSE",
-                    "p": {"maxlen": 5, "waters": [0, 2], "na": False, "variant_prob": 0.1}})
+        pp = {"maxlen": 5, "waters": [0, 2], "na": False, "variant_prob": 0.1}
+        if i % 2 == 1:
+            # termini whose residue is in a non-default state: titratable residues at the chain ends, and (in
+            # run_neutral) the pKa route with the same stubbed table on both sides of the pair
+            pp["pool"] = ["HIS", "ASP", "GLU", "LYS", "TYR", "CYS", "ARG", "HIS", "ASP", "GLU", "ALA", "SER"]
+        out.append({"kind": "neutral", "w": "synth", "seed": seed * 14009 + i, "ff": "PARSE", "p": pp})
     return out
 
 
@@ -246,10 +251,25 @@ def run_neutral(spec, res):
     m = workload.materialise(spec)
     which = rng.choice([["--neutraln"], ["--neutralc"], ["--neutraln", "--neutralc"]])
     extra = rng.choice([[], [], ["--noopt"], ["--keep-chain"]])
-    ra = pipeline.run(m["text"], ["--ff=PARSE"] + extra, workname="c09")
-    rb = pipeline.run(m["text"], ["--ff=PARSE"] + which + extra, workname="c09")
+    if "pool" in (spec.get("p") or {}) and rng.random() < 0.7:
+        extra = extra + ["--titration-state-method=propka", f"--with-ph={rng.choice([1.0, 3.0, 5.0, 7.0, 9.5, 12.0])}"]
+    forced = None
+    if rng.random() < 0.6:
+        # the termini stay charged on the plain side while the terminal residues' own groups are protonated
+        forced = {}
+        for k, t in enumerate(m["truth"]):
+            if t["kind"] == "aa" and t["pos"] in ("N", "C", "NC"):
+                forced[(t["base"], k)] = "below"
+                forced[("C-", k)] = "above"
+                forced[("N+", k)] = "below"
+    with pkastub.for_opts(extra, m["truth"], spec["seed"], forced) as titr:
+        ra = pipeline.run(m["text"], ["--ff=PARSE"] + extra, workname="c09")
+    with pkastub.for_opts(extra, m["truth"], spec["seed"], forced):
+        rb = pipeline.run(m["text"], ["--ff=PARSE"] + which + extra, workname="c09")
     if not ra.ok:
         return
+    if titr is not None:
+        res.count("neutral_pairs_pka_route")
     wit = {"options": which, "extra": extra, "seed": spec["seed"], "residues": [(t["resn"], t["pos"]) for t in m["truth"]][:14]}
     if not rb.ok:
         msg = " | ".join(mm for lv, _n, mm in rb.log if lv >= 40)[:160]
